@@ -632,6 +632,25 @@ func c07Gen(prop string) func(r *Rng, i int, tier string) any {
 			in.Pauses = append(in.Pauses, c07Pause{After: 1 + r.Intn(25), Push: 1 + r.Intn(2)})
 		}
 		in.Shape = fmt.Sprintf("%s/%s", in.Mode, in.Filter)
+		if !filesOnly && r.Chance(14) {
+			// a LAGGING hub: it holds only its latest block at the start (not ready), becomes ready while the stream is reading
+			// files, and the merged files reach beyond the point where it does — so the first join attempt that can succeed falls
+			// above the hub's last irreversible block, possibly while the hub sits on a short fork
+			in.HubStart = hubHeadNum
+			in.Merged = ((hubHeadNum+4+uint64(r.Intn(8)))/in.Bundle + 1) * in.Bundle
+			if in.Mode == "num" && in.Start >= 0 && uint64(in.Start) > hubHeadNum {
+				in.Start = int64(in.Root.Num) + int64(r.Intn(span+1))
+			}
+			in.Stop = 0
+			if r.Chance(30) {
+				in.Stop = in.Merged + uint64(2+r.Intn(6))
+			}
+			in.Pauses = []c07Pause{{After: 1 + r.Intn(10), Push: 3 + r.Intn(6)}}
+			if r.Chance(50) {
+				in.Pauses = append(in.Pauses, c07Pause{After: 6 + r.Intn(15), Push: 2 + r.Intn(6)})
+			}
+			in.Shape += "/lagging-hub"
+		}
 		return in
 	}
 }
